@@ -259,6 +259,7 @@
 
 (defn main-deep []
   (def f (fn named [] [1 2 3]))
+  (print "base " (describe f nil))
   (for d seed (+ 1 ncases)
     (var x f)
     (repeat d (set x @[x]))
